@@ -14,7 +14,11 @@ use std::{
     time::{Duration, Instant},
 };
 
-pub const VERIF_DIR: &str = "/verif";
+// Root of the verification directory: /verif, or the directory `./check` was started from (a snapshot
+// copy works on its own build, evidence and replay directories).
+pub fn verif_dir() -> String {
+    std::env::var("VERIF_DIR").unwrap_or_else(|_| "/verif".to_owned())
+}
 pub const REPO_DIR: &str = "/repo";
 
 #[derive(Clone, Copy, PartialEq, Eq, Debug)]
@@ -812,7 +816,7 @@ fn finish(prop: &dyn Prop, tier: Tier, seed: u64, mut m: Merged, start: Instant)
 
     // Violations -> replay artefacts.
     let nviol = get(&m, "violations");
-    let replay_dir = format!("{VERIF_DIR}/replays");
+    let replay_dir = format!("{}/replays", verif_dir());
     std::fs::create_dir_all(&replay_dir).ok();
     if nviol > 0 {
         exit = 1;
@@ -923,7 +927,7 @@ fn finish(prop: &dyn Prop, tier: Tier, seed: u64, mut m: Merged, start: Instant)
         "wall_s": (wall * 1000.0).round() / 1000.0,
         "violations": nviol,
     });
-    let evdir = format!("{VERIF_DIR}/evidence");
+    let evdir = format!("{}/evidence", verif_dir());
     std::fs::create_dir_all(&evdir).ok();
     std::fs::write(format!("{evdir}/{id}.json"), serde_json::to_string_pretty(&ev).unwrap())
         .unwrap_or_else(|e| machinery_exit(&format!("cannot write evidence: {e}")));
